@@ -20,6 +20,7 @@ import sys
 from pathlib import Path
 
 VERIF = Path(__file__).resolve().parents[1]
+VERIF_RUN = [VERIF]
 REPO = Path('/repo')
 
 
@@ -29,8 +30,15 @@ def sh(cmd, **kw):
 
 def main(ids):
     inplace = '--in-place' in ids
-    ids = [i for i in ids if i != '--in-place']
-    seeded = VERIF / 'seeded'
+    kind = 'seeded'
+    global VERIF
+    if '--neutral' in ids:          # behaviour-preserving rewrites under /verif/neutral/<id>/: the checks must stay quiet
+        kind = 'neutral'
+    for a in list(ids):
+        if a.startswith('--verif='):   # run the checks of another checkout of /verif (e.g. a snapshot) against the patches stored here
+            VERIF_RUN[0] = Path(a.split('=', 1)[1])
+    ids = [i for i in ids if not i.startswith('--')]
+    seeded = VERIF / kind
     rows = []
     st = sh(['git', '-C', str(REPO), 'status', '--porcelain', '--untracked-files=no']).stdout.strip()
     if st and inplace:
@@ -67,12 +75,12 @@ def _run(seeded, ids, REPO, env, rows):
             continue
         try:
             for p in props:
-                r = sh([str(VERIF / 'check'), p, 'quick'], cwd=str(VERIF), env=env)
+                r = sh([str(VERIF_RUN[0] / 'check'), p, 'quick'], cwd=str(VERIF_RUN[0]), env=env)
                 vio = [l for l in r.stdout.splitlines() if l.startswith('VIOLATION')]
                 rows.append((d.name, p, f'exit={r.returncode} ' + (vio[0] if vio else r.stdout.strip().splitlines()[-1][:120] if r.stdout.strip() else r.stderr.strip()[-120:])))
                 if vio:
                     rp = vio[0].split('replay=')[1].split()[0]
-                    src = Path(rp) if os.path.isabs(rp) else VERIF / rp
+                    src = Path(rp) if os.path.isabs(rp) else VERIF_RUN[0] / rp
                     if src.exists():
                         (d / f'replay_{p}.json').write_text(src.read_text())
         finally:
